@@ -95,6 +95,17 @@ func (p *Prog) Snapshot() func() {
 // HT renders a type as seen from the harness package.
 func (p *Prog) HT(t *Type) string { return t.Str(p.HQ()) }
 
+// NoteHarnessImports records the ext imports a type expression needs in the harness package.
+func (p *Prog) NoteHarnessImports(t *Type, into map[string]bool) {
+	tmp := map[string]bool{}
+	p.noteImports(t, tmp)
+	for k := range tmp {
+		if strings.HasPrefix(k, "ext:") {
+			into[k] = true
+		}
+	}
+}
+
 // Add appends a chunk of code to calls.go.
 func (p *Prog) Add(format string, a ...any) { p.calls = append(p.calls, fmt.Sprintf(format, a...)) }
 
